@@ -9,6 +9,7 @@ import (
 	"regexp"
 	"runtime"
 	"strings"
+	"sync/atomic"
 	"time"
 
 	"verifharness/child"
@@ -51,53 +52,75 @@ func main() {
 // repoFrame matches goroutine stack frames whose source file belongs to the repository.
 var repoFrame = regexp.MustCompile(`\n\t/repo/[^\n]*\.go:\d+`)
 
-// hangVerdict is called when a case has not finished within its (generous)
-// watchdog.  The verdict is logical, not wall-clock: it is a deadlock only if, in
-// two samples one second apart, every goroutine that has a repository frame is
-// blocked (chan send/receive, select, sync wait) and none is runnable or running.
-// Anything else is reported as busy = inconclusive.
-func hangVerdict(what string) {
-	blocked := func() (bool, string) {
-		buf := make([]byte, 8<<20)
-		n := runtime.Stack(buf, true)
-		dump := string(buf[:n])
-		allBlocked := true
-		found := 0
-		for _, g := range strings.Split(dump, "\n\n") {
-			if !repoFrame.MatchString(g) {
-				continue
-			}
-			found++
-			hdr := g
-			if i := strings.IndexByte(g, '\n'); i >= 0 {
-				hdr = g[:i]
-			}
-			if !(strings.Contains(hdr, "chan send") || strings.Contains(hdr, "chan receive") || strings.Contains(hdr, "select") || strings.Contains(hdr, "sync.") || strings.Contains(hdr, "semacquire")) {
-				allBlocked = false
-			}
+// progress is bumped by the monitors' own producers, consumers and readers each
+// time they complete an operation; together with the goroutine states it tells a
+// deadlock from a slow run.
+var progress atomic.Int64
+
+func tick() { progress.Add(1) }
+
+// repoAllBlocked reports whether every goroutine that has a frame in the
+// repository's source is blocked (chan send/receive, select, sync wait), and how
+// many such goroutines there are.
+func repoAllBlocked() (bool, int, string) {
+	buf := make([]byte, 8<<20)
+	n := runtime.Stack(buf, true)
+	dump := string(buf[:n])
+	allBlocked := true
+	found := 0
+	for _, g := range strings.Split(dump, "\n\n") {
+		if !repoFrame.MatchString(g) {
+			continue
 		}
-		return allBlocked && found > 0, dump
+		found++
+		hdr := g
+		if i := strings.IndexByte(g, '\n'); i >= 0 {
+			hdr = g[:i]
+		}
+		if !(strings.Contains(hdr, "chan send") || strings.Contains(hdr, "chan receive") || strings.Contains(hdr, "select") || strings.Contains(hdr, "sync.") || strings.Contains(hdr, "semacquire")) {
+			allBlocked = false
+		}
 	}
-	b1, _ := blocked()
-	time.Sleep(time.Second)
-	b2, dump := blocked()
-	fmt.Fprintf(os.Stderr, "watchdog fired: %s\n", what)
-	if b1 && b2 {
-		fmt.Fprintln(os.Stderr, "HANG-VERDICT: deadlock")
-	} else {
-		fmt.Fprintln(os.Stderr, "HANG-VERDICT: busy")
-	}
+	return allBlocked && found > 0, found, dump
+}
+
+func hangExit(what, verdict, dump string) {
+	fmt.Fprintf(os.Stderr, "watchdog: %s\n", what)
+	fmt.Fprintln(os.Stderr, "HANG-VERDICT: "+verdict)
 	fmt.Fprintln(os.Stderr, dump)
 	os.Exit(4)
 }
 
-// waitOrHang waits for done; if the generous watchdog fires the process ends with
-// a logical hang verdict.
-func waitOrHang(done <-chan struct{}, d time.Duration, what string) {
-	select {
-	case <-done:
-	case <-time.After(d):
-		hangVerdict(what)
+// waitOrHang waits for done.  The verdict on a wait that does not end is logical,
+// not wall-clock: it is a deadlock only if in six consecutive samples one second
+// apart every goroutine with a repository frame is blocked and the monitors'
+// progress counter (and the hook event counter) has not moved - nothing can ever
+// make progress.  If the generous wall-clock maximum passes without that, the run
+// is reported as busy, which the driver treats as inconclusive.
+func waitOrHang(done <-chan struct{}, max time.Duration, what string) {
+	deadline := time.Now().Add(max)
+	streak := 0
+	last := int64(-1)
+	for {
+		select {
+		case <-done:
+			return
+		case <-time.After(time.Second):
+		}
+		blocked, _, dump := repoAllBlocked()
+		p := progress.Load()
+		if blocked && p == last {
+			streak++
+		} else {
+			streak = 0
+		}
+		last = p
+		if streak >= 6 {
+			hangExit(what, "deadlock", dump)
+		}
+		if time.Now().After(deadline) {
+			hangExit(what, "busy", dump)
+		}
 	}
 }
 
